@@ -133,6 +133,14 @@ def core_shapes():
                 # a leading emit inside the first body makes "was the body entered" observable
                 bodies[0] = [f"emit({c.next()})"] + bodies[0]
                 yield wrap(compound(kind, cond, bodies, c) + [f"emit({c.next()})"])
+    # nesting 2: a jump of the OUTER loop placed in the else clause (or a nested block) of an inner loop
+    for outer in ("while True:", "while 1:", "for y in [0]:", "for y in xs:", "while c0:"):
+        for inner in ("for x in []:", "for x in [0]:", "for x in xs:", "while c1:", "while False:"):
+            for inner_body in (["emit(2)"], ["emit(2)", "break"], ["if c1:", "    break", "emit(2)"]):
+                for jump in ("break", "continue", "return 5"):
+                    for tail in ("raise KeyError()", "return 6", "emit(3)"):
+                        yield wrap([outer] + ind(["emit(1)", inner] + ind(inner_body) + ["else:"] + ind([jump]) + [tail]) + ["emit(4)"])
+                        yield wrap([outer] + ind(["emit(1)", "try:"] + ind([inner] + ind(inner_body) + ["else:"] + ind([jump])) + ["finally:", "    emit(7)", tail]) + ["emit(4)"])
     for e in POINTLESS:
         yield wrap(["emit(1)", e, "emit(2)"])
         yield wrap(["if c0:", "    " + e, "emit(2)"])
@@ -158,7 +166,8 @@ def random_shape(draw, depth=0, in_loop=False, c=None):
             cond = draw(st.sampled_from(ITERS if kind.startswith("for") else CONDS))
             bodies = []
             for i in range(NBODIES[kind]):
-                bodies.append(draw(random_shape(depth=depth + 1, in_loop=(kind in LOOPS and i == 0) or (in_loop and kind not in LOOPS), c=c)))
+                # the body of a loop is "in a loop"; every other body (including a loop's else clause) inherits the enclosing loop
+                bodies.append(draw(random_shape(depth=depth + 1, in_loop=True if (kind in LOOPS and i == 0) else in_loop, c=c)))
             lines += compound(kind, cond, bodies, c)
     return lines
 
